@@ -874,10 +874,12 @@ func runSys(c *sysCase) (vs []vkit.Violation, classes []string, infra error) {
 				}
 				if errB == nil && errA == nil {
 					if before.targets != after.targets {
+						add("C10/sys/restart-status-differs", "shard %d was killed and restarted on its store: before, its status had the entries (hash: state)\n%s\nafterwards\n%s", s.i, before.targets, after.targets)
 						add("C09/sys/restart-assignment-differs", "shard %d was killed and restarted on its store: it acknowledged\n%s\nand resumed\n%s", s.i, before.targets, after.targets)
 					}
 					if before.idle != after.idle {
 						add("C09/sys/restart-idle-since-differs", "shard %d was killed and restarted on its store: idle since %q before, %q after", s.i, before.idle, after.idle)
+						add("C10/sys/restart-idle-since-differs", "shard %d was killed and restarted on its store: idle since %q before, %q after", s.i, before.idle, after.idle)
 					}
 					if before.idle != "" {
 						classes = append(classes, "sys/fault/idle-sidecar-restarted")
@@ -1281,6 +1283,7 @@ func TestC13Sys(t *testing.T) { sysTest(t, "C13", "TestC13Sys", false) }
 func TestC02Sys(t *testing.T) { sysTest(t, "C02", "TestC02Sys", false) }
 func TestC12Sys(t *testing.T) { sysTest(t, "C12", "TestC12Sys", false) }
 func TestC09Sys(t *testing.T) { sysTest(t, "C09", "TestC09Sys", true) }
+func TestC10Sys(t *testing.T) { sysTest(t, "C10", "TestC10Sys", true) }
 
 func replaySys(t *testing.T, prop, test string) {
 	rec := vkit.Rec(prop, "exploration", sysRule)
@@ -1313,3 +1316,4 @@ func TestReplayC13Sys(t *testing.T) { replaySys(t, "C13", "TestC13Sys") }
 func TestReplayC02Sys(t *testing.T) { replaySys(t, "C02", "TestC02Sys") }
 func TestReplayC12Sys(t *testing.T) { replaySys(t, "C12", "TestC12Sys") }
 func TestReplayC09Sys(t *testing.T) { replaySys(t, "C09", "TestC09Sys") }
+func TestReplayC10Sys(t *testing.T) { replaySys(t, "C10", "TestC10Sys") }
